@@ -453,6 +453,9 @@ func genCaseC11(t *rapid.T) *c11Case {
 	nSteps := rapid.IntRange(2, 8).Draw(t, "nSteps")
 	for i := 0; i < nSteps; i++ {
 		st := c11Step{Op: rapid.SampledFrom(opNames).Draw(t, fmt.Sprintf("step%dop", i))}
+		if len(opNames) == 1 && rapid.IntRange(0, 2).Draw(t, fmt.Sprintf("step%dunnamed", i)) == 0 {
+			st.Op = "" // the only operation of the document, chosen by giving no name
+		}
 		for _, vn := range c11VarNames {
 			lab := fmt.Sprintf("step%d%s", i, vn)
 			if vn == "c" || rapid.IntRange(0, 3).Draw(t, lab+"give") != 0 {
@@ -493,7 +496,23 @@ func goVars(kvs []hx.KV) map[string]interface{} {
 	return m
 }
 
+// resolveExe resolves under a watch: a call that never returns (every goroutine of it parked on a
+// lock, two looks in a row) is reported as such instead of waiting for the deadline of the run.
 func resolveExe(root *ggql.Root, exe *ggql.Executable, op string, vars map[string]interface{}) (out map[string]interface{}, pan interface{}) {
+	done := make(chan struct{})
+	go c11ResolveWorker(root, exe, op, vars, &out, &pan, done)
+	if stuck := hx.AwaitOrStuck(done, "exec.c11ResolveWorker"); stuck != "" {
+		return map[string]interface{}{"data": nil}, "never returned: " + stuck
+	}
+	return
+}
+
+func c11ResolveWorker(root *ggql.Root, exe *ggql.Executable, op string, vars map[string]interface{}, outp *map[string]interface{}, panp *interface{}, done chan struct{}) {
+	defer close(done)
+	*outp, *panp = resolveExeNow(root, exe, op, vars)
+}
+
+func resolveExeNow(root *ggql.Root, exe *ggql.Executable, op string, vars map[string]interface{}) (out map[string]interface{}, pan interface{}) {
 	defer func() {
 		if r := recover(); r != nil {
 			pan = r
@@ -546,6 +565,10 @@ func checkC11(c *c11Case) (ds []hx.Discrepancy, traits map[string]bool) {
 		w.Hook = panicHook
 		got, pan := resolveExe(w.Root, exe, st.Op, goVars(st.Vars))
 		w.Hook = nil
+		if pan != nil && strings.HasPrefix(fmt.Sprint(pan), "never returned") {
+			add("hang", "step %d (op %q, vars %v): ResolveExecutable of the kept executable %v\n%s\nsteps: %+v", i, st.Op, goVars(st.Vars), pan, c.Text, c.Steps)
+			return
+		}
 		if pan != nil && !strings.HasPrefix(fmt.Sprint(pan), "injected resolver panic") {
 			add("panic", "step %d: ResolveExecutable panicked: %v\n%s", i, pan, c.Text)
 			return
